@@ -41,6 +41,39 @@ CLAIMED = {
             "gradients compared modulo per-row constants; TV/Wasserstein gradients only at generic soft points; "
             "empty-cluster relation for predictions with entries >= 1e-4 (epsilon clipping artefact otherwise)",
             "DESIGN.md section 3, C13"),
+    "C03": ("property-based testing (Hypothesis) of real fits with the optimiser's update_params wrapped: per-parameter "
+            "directional derivatives of the batch objective by Richardson differences",
+            "Real fits and paths of all gradient-trained families (tiny shapes, any GEMINI, solver, batch size, with and "
+            "without must-link/cannot-link decoration) are observed from outside; at each observed step and for each "
+            "parameter array the direction handed to the optimiser is compared with the numerical gradient of "
+            "GEMINI(model(batch)) - penalty + constraint energy with only that parameter perturbed. Exploration.",
+            "derivative rule of C02 incl. kink filter; batch and affinity block taken as delivered (C10 checks them); "
+            "steps beyond the 4th sampled 1 in 4; MMD steps with a squared distance within 1000 roundings of 0 skipped",
+            "DESIGN.md section 3, C03"),
+    "C04": ("property-based testing (Hypothesis) over each estimator's accepted configuration domain with a coherence "
+            "oracle on the public API",
+            "For all 18 estimators, generated valid configurations (names/instances/None, solvers, batch sizes, OvA/OvO, "
+            "named/callable/precomputed affinities, groups, masks, Kauri limits) and finite float64/float32/int data are "
+            "fitted; fit must not raise and labels_, predict_proba, predict, fit_predict, score (against the literal "
+            "definitions), n_iter_ and optimiser_ must be coherent. Exploration.",
+            "score compared on predict_proba clipped at the documented epsilon; single-precision tolerance for float32 "
+            "data (score evaluates the affinity in the precision of the data it is given)",
+            "DESIGN.md section 3, C04"),
+    "C10": ("property-based testing (Hypothesis) of real fits/paths with a recording wrapper on the instance's _batchify",
+            "Every epoch of generated fits and paths is recorded: batches must be disjoint, cover every sample once, "
+            "respect batch_size, carry exactly affinity[rows][:, rows] in row order; step counts, n_iter_, full-batch "
+            "nonparametric models, recorded indices of decorated models and block-wise validation scores are checked. "
+            "Exploration.",
+            "rows identified by exact equality (unique by construction; degenerate kernels with identical rows skipped)",
+            "DESIGN.md section 3, C10"),
+    "C14": ("property-based testing (Hypothesis): differential against a union-find reference for validation, and "
+            "observation under the decoration for the training-time gradient injection",
+            "Generated pair sets over non-contiguous index universes must be accepted iff the union-find reference calls "
+            "them consistent; malformed inputs must raise; during real decorated fits the gradient reaching the model "
+            "must equal the GEMINI gradient plus exactly the +/-factor*(p_i-p_j) terms on rows of pairs sharing the "
+            "batch, other rows bit-identical. Exploration.",
+            "duplicated pairs count once per listing; indices in training are sample positions 0..n-1",
+            "DESIGN.md section 3, C14"),
 }
 
 NOT_YET = {}
